@@ -10,9 +10,9 @@ import warnings
 
 import numpy as np
 
-from pyvc.arr import SymArr
+from pyvc.arr import SymArr, havoc_array
 from pyvc.contract import Contract, register
-from pyvc.core import and_, ctx, is_sym, not_, or_
+from pyvc.core import and_, ctx, is_sym, ite, not_, or_
 from pyvc.spec import All, Forall
 
 MS = "verde.model_selection"
@@ -111,21 +111,35 @@ def _occupancies(tier, rng):
 
 @register
 class PartitionBySum(Contract):
-    """What BlockKFold needs from partition_by_sum (array of positive block populations)."""
+    """partition_by_sum on block populations (what BlockKFold gives it). DEDUCTIVE for every array of 2..4 (quick) /
+    2..5 (thorough) positive integers and every number of parts (the length is a structural bound, the values are
+    symbolic); the same clauses are evaluated at run time over longer occupancy vectors (bounded)."""
 
     target = "verde.utils:partition_by_sum"
     cover_return = False
 
     def configs(self, tier):
-        return []  # bounded only
+        out = []
+        for n in range(1, 6 if tier == "thorough" else 5):
+            for parts in range(2, n + 2):
+                out.append({"n": n, "parts": parts})
+        return out
+
+    def setup(self, B, cfg):
+        from pyvc.arr import from_list
+
+        return (from_list([B.int("size%d" % k) for k in range(cfg["n"])], "i"), cfg["parts"]), {}
 
     def requires(self, a):
         arr = a.array
-        return all(arr.at(i) >= 1 for i in range(int(arr.shape[0]))) and a.parts >= 2
+        return and_(*([arr.at(i) >= 1 for i in range(int(arr.shape[0]))] + [a.parts >= 2]))
 
     def raises(self, a):
         # ValueError is allowed whenever no valid split exists for the greedy rule; it is REQUIRED when parts > size
         return [(ValueError, _MayRaise(a))]
+
+    def havoc(self, a):
+        return havoc_array("splits", (a.parts - 1,), "i")
 
     def samples(self, rng, nrng, tier):
         for occ in _occupancies(tier, rng):
@@ -135,28 +149,46 @@ class PartitionBySum(Contract):
     def ensures(self, a, r):
         arr = a.array
         n = int(arr.shape[0])
-        vals = [int(arr.at(i)) for i in range(n)]
-        ok = isinstance(r, SymArr) and r.ndim == 1 and int(r.shape[0]) == a.parts - 1
+        vals = [arr.at(i) for i in range(n)]
+        ok = isinstance(r, SymArr) and r.ndim == 1 and concrete_len(r) == a.parts - 1
         out = {"parts_minus_one_split_points": ok}
         if not ok:
             return out
-        idx = [int(r.at(i)) for i in range(a.parts - 1)]
-        out["split_points_strictly_increasing_within_1_to_n_minus_1"] = all(1 <= i <= n - 1 for i in idx) and all(x < y for x, y in zip(idx, idx[1:]))
+        idx = [r.at(i) for i in range(a.parts - 1)]
+        out["split_points_strictly_increasing_within_1_to_n_minus_1"] = and_(*([and_(1 <= i, i <= n - 1) for i in idx] + [x < y for x, y in zip(idx, idx[1:])]))
         bounds = [0] + idx + [n]
-        sums = [sum(vals[lo:hi]) for lo, hi in zip(bounds, bounds[1:])]
-        ideal = sum(vals) // a.parts
-        out["every_part_is_non_empty"] = all(hi > lo for lo, hi in zip(bounds, bounds[1:]))
-        out["part_sums_within_one_element_plus_parts_of_the_ideal"] = all(abs(s - ideal) <= max(vals) + a.parts for s in sums)
+        out["every_part_is_non_empty"] = and_(*[hi > lo for lo, hi in zip(bounds, bounds[1:])])
+        total = 0
+        for v in vals:
+            total = total + v
+        ideal = total // a.parts
+        biggest = vals[0]
+        for v in vals[1:]:
+            biggest = ite(v > biggest, v, biggest)
+        clauses = []
+        for lo, hi in zip(bounds, bounds[1:]):
+            s_ = 0
+            for t in range(n):
+                s_ = s_ + ite(and_(lo <= t, t < hi), vals[t], 0)
+            clauses.append(and_(s_ - ideal <= biggest + a.parts, ideal - s_ <= biggest + a.parts))
+        out["part_sums_within_one_element_plus_parts_of_the_ideal"] = and_(*clauses)
         return out
 
 
-class _MayRaise:
-    """Raise condition that is permissive: pos always holds when raised; neg: must not raise only if parts > size is false AND ... (unknown) -> we only REQUIRE the raise for parts > size."""
+def concrete_len(arr):
+    from pyvc.core import concrete_value
 
-    def __init__(self, a):
-        n = int(a.array.shape[0])
-        self.pos = True
-        self.neg = not (a.parts > n)
+    v = concrete_value(arr.shape[0])
+    return None if v is None else int(v)
+
+
+def _MayRaise(a):
+    """Permissive raise condition: a ValueError is ALLOWED whenever the greedy rule finds no valid split (pos = True);
+    it is REQUIRED when parts > size (neg, proved on the normal exit: parts <= size)."""
+    from pyvc.contract import RaiseCond
+
+    n = int(a.array.shape[0])
+    return RaiseCond(True, not (a.parts > n))
 
 
 # ----------------------------------------------------------------- bounded: the splitters
